@@ -138,10 +138,33 @@ def decide_and_report(pid, tier, seed, cfg, report, scratch):
     # carve-outs: a known finding may name a companion obligation that must stay green (checked like any other)
     exit_code = 0
     replays = []
+    standin_v = []
     if report['undecided'] and not violations:
         for u in report['undecided']:
             lines.append(f'UNDECIDED property={pid} {u[:1500]}')
         exit_code = 2
+        # a unit that cannot be decided (construct outside the verifier's dialect, lost anchor): a BOUNDED stand-in -- the
+        # replay grid of the property's operations on the real code -- may still refute the property; it never proves it
+        ops = cfg.get('standin_ops', [])
+        if ops:
+            try:
+                w, cases = witness_mod.standin(pid, ops, REPO, scratch)
+            except Exception as e:
+                w, cases = None, 0
+                lines.append(f'  (bounded stand-in could not run: {e!r})')
+            report['bounded'].append(dict(id=f'standin[{pid}]', bound=f'replay grid of {len(ops)} operations, {cases} cases', status='failed' if w else 'no disagreement',
+                                          kind='bounded', fn='bounded stand-in'))
+            if w:
+                rp = os.path.join(OUT, 'replays', f'{pid}-standin.json')
+                with open(rp, 'w') as f:
+                    json.dump(dict(property=pid, obligation=f'bounded stand-in (unit undecided): {w["op"]}', counterexample=w, replayed=w.get('replayed'),
+                                   verifier_output='; '.join(report['undecided'])[:3000], repo=REPO, bounded=True), f, indent=1)
+                lines.append(f'VIOLATION property={pid} replay={rp}')
+                lines.append(f'  bounded stand-in (the deductive unit is undecided): op {w["op"]} witness={json.dumps(w.get("input"))} observed={w.get("observed")} expected={w.get("expected")}')
+                standin_v.append(dict(id=f'standin[{pid}]:{w["op"]}', status='failed'))
+                exit_code = 1
+            else:
+                lines.append(f'  bounded stand-in: {cases} grid cases of {len(ops)} operations agree with the specification (proves nothing; still undecided)')
     for idx, o in enumerate(violations):
         rp = os.path.join(OUT, 'replays', f'{pid}-{idx}.json')
         rec = dict(property=pid, obligation=o['id'], function=o.get('fn'), clause=o.get('expr'), backend=o.get('backend'),
@@ -166,7 +189,7 @@ def decide_and_report(pid, tier, seed, cfg, report, scratch):
         lines.append(f'VIOLATION property={pid} replay={rp}{suffix}')
         lines.append(f'  obligation {o["id"]} failed ({o.get("backend")})' + (f' witness={json.dumps(cex.get("input"))} observed={cex.get("observed")} expected={cex.get("expected")}' if cex else ''))
         exit_code = 1
-    write_evidence(pid, tier, seed, cfg, report, violations, known_hit)
+    write_evidence(pid, tier, seed, cfg, report, violations + standin_v, known_hit)
     return exit_code, lines
 
 
